@@ -193,11 +193,14 @@ func runCacheHistory(env *fw.Env, c CacheCase, withFaults bool, judgeMinimizeLat
 				readFailed = true
 			}
 			for j, o := range out {
-				if deadlined && j == 0 && isCancelled(o.e) {
-					// running out of time is no datastore failure: it does not excuse later failures of clean requests
-					faultSeen = true
-					faultedInside++
-					classes = append(classes, "deadlined-copy-failed")
+				if deadlined && j == 0 {
+					// the copy that ran out of time: its own outcome goes to a caller that has given up. Running
+					// out of time is no datastore failure: it does not excuse later failures of clean requests
+					if isCancelled(o.e) {
+						faultSeen = true
+						faultedInside++
+						classes = append(classes, "deadlined-copy-failed")
+					}
 					continue
 				}
 				if !fired && o.e != nil && readFailed && c.Cfg.Shared && isCancelled(o.e) {
